@@ -471,7 +471,7 @@ func checkC10(c *core.Ctx, r *core.Report) {
 				}
 				lockIdx := -1
 				for i := 0; i < st.NumFields(); i++ {
-					if st.Field(i).Name() == "lock" {
+					if c.BaseName(st.Field(i)) == "lock" {
 						lockIdx = i
 					}
 				}
